@@ -92,4 +92,16 @@ CHECKS = {
              "distinct = distinct (config, seed, length, middle RTT).",
         assumptions=COMMON_ASSUME + ["probe spacing lower bounds use the documented jitter ranges (Vegas jitter in [0.5,1), Gradient countdown in [interval, 2*interval))"],
     ),
+    "C16": dict(
+        pkg="c16", race=False, shards=(4, 16), timeout_s=(300, 1800),
+        technique="per-operation monitor: recording change listeners vs EstimatedLimit() before/after every OnSample/SetLimit",
+        level_text="For AIMD/Vegas/Gradient/Gradient2/Settable/Fixed and a scripted recorder, bare and under Windowed, Traced and Traced(Windowed): "
+                   "around every operation the monitor compares EstimatedLimit() before/after, requires every previously registered listener to "
+                   "have been called if it changed, requires the last notified value to equal the new estimate, requires the wrapper's estimate "
+                   "to equal the delegate's, and requires Traced to forward the sample unchanged. Listeners are registered at random points. Exploration.",
+        require=["operations", "estimate_changes", "notifications_checked", "listeners_registered", "traced_forward_checks"],
+        rule="case = (inner limit kind + valid config, wrapper chain, 40-400 ops: OnSample benign/hostile, SetLimit for settable, late NotifyOnChange); "
+             "non-trivial = estimate changed at least once with a listener registered; distinct = distinct (config, wrapper, op count, listener count, last op).",
+        assumptions=COMMON_ASSUME,
+    ),
 }
